@@ -407,6 +407,28 @@ def write_replay(prop_id, payload):
     return p
 
 
+def coqchk(prop_id):
+    """coqchk -o on the compiled property file (re-checks it and every library it depends on with the
+    independent checker and prints the axioms they rely on)."""
+    import time as _t
+    t0 = _t.time()
+    cmd = ["coqchk", "-silent", "-o", "-Q", ".", "Sylt", "Sylt.Props.%s" % prop_id]
+    with Lock("coq"):
+        rc, out = run(cmd, cwd=COQ, timeout=3600)
+    summary = out[out.find("CONTEXT SUMMARY"):] if "CONTEXT SUMMARY" in out else out[-1500:]
+    axioms = ""
+    import re as _re
+    m = _re.search(r"\* Axioms:(.*?)\n\s*\n\* Constants", summary, _re.S)
+    if m:
+        axioms = " ".join(m.group(1).split())
+    clean = all(("* %s: <none>" % k) in summary for k in (
+        "Constants/Inductives relying on type-in-type", "Constants/Inductives relying on unsafe (co)fixpoints",
+        "Inductives whose positivity is assumed"))
+    ok = rc == 0 and axioms == "<none>" and clean
+    return {"ok": ok, "cmd": " ".join(cmd), "axioms": axioms, "summary": " ".join(summary.split())[:1200],
+            "output": out[-2000:], "wall_s": round(_t.time() - t0, 1)}
+
+
 def known_findings(prop_id):
     p = os.path.join(VERIF, "known_findings.jsonl")
     out = []
